@@ -135,7 +135,7 @@ def _rm_index(path):
         os.remove(p)
 
 
-def run_paths(path, threads):
+def run_paths(path, threads, case_id=0):
     """the other public ways to obtain the index of a file: generated and saved, loaded from the saved .p1i on a second
     call, and through MixedLogReader(path).get_index() with default arguments, first without and then with an index
     file on disk.  Keys: 'save:<W>', 'load', 'reader', 'reader-again'."""
@@ -159,7 +159,124 @@ def run_paths(path, threads):
     out['reader'] = guarded(reader)
     out['reader-again'] = guarded(reader)
     _rm_index(path)
+    out.update(run_env(path, case_id))
     return out
+
+
+_TRACE = {}
+
+
+def _trace_logging(on):
+    """option that must not matter: trace logging of the indexer (the per-message trace line is built inside the
+    per-candidate try block)"""
+    import logging as pylog
+    from fusion_engine_client.utils import trace as tlog
+    lg = pylog.getLogger('point_one.fusion_engine.parsers.fast_indexer')
+    if on:
+        _TRACE['level'], _TRACE['prop'] = lg.level, lg.propagate
+        if 'h' not in _TRACE:
+            _TRACE['h'] = pylog.NullHandler()
+            lg.addHandler(_TRACE['h'])
+        lg.setLevel(tlog.getTraceLevel(depth=3))
+        lg.propagate = False
+    else:
+        lg.setLevel(_TRACE['level'])
+        lg.propagate = _TRACE['prop']
+
+
+ALT_NAMES = ['c08x.bin', 'c08noext', os.path.join('d.ir', 'c08y.log'), 'c08 z.p1log']
+
+
+def run_env(path, case_id):
+    """things that must not matter: trace logging; the file's name / extension / directory, a relative path with another
+    current directory, a stale index file already on disk (force_reindex=True), numpy's error state set to 'raise'.
+    Keys 'trace:2', 'env', 'env-load'."""
+    import shutil
+    out = {}
+    _trace_logging(True)
+    try:
+        out['trace:2'] = guarded(lambda: fi.fast_generate_index(path, force_reindex=True, save_index=False, num_threads=2))
+    finally:
+        _trace_logging(False)
+    d = os.path.join(os.path.dirname(path), 'env%d' % os.getpid())
+    name = ALT_NAMES[(case_id if isinstance(case_id, int) else 0) % len(ALT_NAMES)]
+    alt = os.path.join(d, name)
+    os.makedirs(os.path.dirname(alt), exist_ok=True)
+    shutil.copyfile(path, alt)
+    with open(os.path.splitext(alt)[0] + '.p1i', 'wb') as f:       # stale index of some other file
+        f.write(b'\x07' * 14 * 3 + b'\x01')
+    cwd = os.getcwd()
+    old = np.seterr(all='raise')
+    try:
+        os.chdir(d)
+        out['env'] = guarded(lambda: fi.fast_generate_index(name, force_reindex=True, save_index=True, num_threads=2))
+        out['env-load'] = guarded(lambda: fi.fast_generate_index(name))
+    finally:
+        os.chdir(cwd)
+        np.seterr(**old)
+        shutil.rmtree(d, ignore_errors=True)
+    return out
+
+
+# ---- histories in one interpreter ------------------------------------------------------------------------------
+KEEP = []          # (case, data, FileIndex objects handed out early, their snapshots)
+
+
+def remember(case, data, path, consts):
+    if len(KEEP) >= 6 or not case.get('paths'):
+        return
+    objs = {}
+    try:
+        objs['plain:1'] = fi.fast_generate_index(path, force_reindex=True, save_index=False, num_threads=1)
+        objs['saved:3'] = fi.fast_generate_index(path, force_reindex=True, save_index=True, num_threads=3)
+        _rm_index(path)
+    except BaseException:
+        return
+    KEEP.append((case, data, objs, {k: entries(v) for k, v in objs.items()}, consts))
+
+
+def history(path):
+    """after all the other files of this process have been indexed: results handed out early are unchanged; indexing the
+    same files again gives the same result (process-level state); mutating the arrays of a returned index affects
+    neither the saved .p1i nor a later call; the log file itself is never modified."""
+    problems = []
+    for case, data, objs, snaps, consts in KEEP:
+        if case.get('consts'):
+            set_consts(*consts)
+        try:
+            for k, o in objs.items():
+                if entries(o) != snaps[k]:
+                    problems.append({'id': case.get('id'), 'problem': 'an index returned earlier changed after later calls', 'which': k})
+            with open(path, 'wb') as f:
+                f.write(data)
+            for nt in (1, 3):
+                r = run_index(path, nt)
+                if r != snaps['plain:1']:
+                    problems.append({'id': case.get('id'), 'problem': 'indexing the same file again later in the same process gives a different index', 'num_threads': nt,
+                                     'first': snaps['plain:1'][:5], 'again': r if isinstance(r, dict) else r[:5]})
+            _rm_index(path)
+            got = guarded(lambda: fi.fast_generate_index(path, force_reindex=True, save_index=True, num_threads=2))
+            try:
+                idx = fi.fast_generate_index(path, force_reindex=True, save_index=True, num_threads=2)
+                for col, v in (('time', 7.0), ('type', 1), ('offset', 3), ('message_index', 9)):
+                    a = getattr(idx, col)
+                    if len(a):
+                        a[:] = v
+                after = guarded(lambda: fi.fast_generate_index(path))
+                again = guarded(lambda: fi.fast_generate_index(path, force_reindex=True, save_index=False, num_threads=2))
+                if after != snaps['plain:1'] or again != snaps['plain:1'] or got != snaps['plain:1']:
+                    problems.append({'id': case.get('id'), 'problem': 'mutating the arrays of a returned index changed the saved index file or a later call',
+                                     'loaded': after if isinstance(after, dict) else after[:5], 'expected': snaps['plain:1'][:5]})
+            except BaseException as e:
+                problems.append({'id': case.get('id'), 'problem': 'history step raised %s: %s' % (type(e).__name__, str(e)[:100])})
+            _rm_index(path)
+            with open(path, 'rb') as f:
+                if f.read() != data:
+                    problems.append({'id': case.get('id'), 'problem': 'the log file was modified by indexing it'})
+        finally:
+            if case.get('consts'):
+                set_consts(*REAL)
+    return problems
 
 
 def _default_payload(cls, seconds):
@@ -255,7 +372,8 @@ def main():
         try:
             runs = {str(nt): run_index(path, nt) for nt in case['threads']}
             if case.get('paths'):
-                runs.update(run_paths(path, case['paths']))
+                runs.update(run_paths(path, case['paths'], case.get('id')))
+                remember(case, data, path, consts)
         finally:
             if case.get('consts'):
                 set_consts(*REAL)
@@ -263,6 +381,8 @@ def main():
         if case.get('oracle', True):
             res['oracle'] = oracle_table(data, (int(consts[0]), int(consts[1])) if case.get('legacy_view') else None)
         print(json.dumps(res), flush=True)
+    if PATCHABLE or not any(c.get('consts') for c, *_ in KEEP):
+        print(json.dumps({'history': history(path), 'kept': [c.get('id') for c, *_ in KEEP]}), flush=True)
     try:
         os.remove(path)
     except OSError:
